@@ -2,6 +2,7 @@ mod c05;
 mod c07;
 mod c08;
 mod c09;
+mod c15;
 mod c16;
 mod dbg;
 mod hist;
@@ -10,6 +11,10 @@ mod svcops;
 use vkit::Property;
 
 fn main() {
+    if std::env::args().nth(1).as_deref() == Some("--debug15") {
+        c15::debug(&std::env::args().nth(2).expect("replay file"));
+        return;
+    }
     if std::env::args().nth(1).as_deref() == Some("--debug") {
         dbg::run();
         return;
@@ -58,6 +63,17 @@ fn main() {
             "KernelPort::observe / observe_cbor (warp-wasm) are exercised by the C13 totality targets, not here",
         ],
         subs: c16::subs,
+        max_shards: 16,
+    },
+    Property {
+        id: "C15",
+        level: "exploration",
+        rule: "proptest: a base worldline (1-2 heads) runs a generated script; one or two strands are forked through WorldlineRuntime::fork_strand at generated ticks (the second possibly from the first strand's child lane: a chain), Shared (90%) or AuthorOnly, each valid fork preceded by four invalid ones (tick out of range, child id taken, duplicate heads, head of another lane); optionally a support pin; then 2-28 generated steps tick base and strand lanes through the ordinary scheduler with intents (plain and ticketed) whose data-driven programs are realised against the lane they are sent to; finally every strand is compared, planned twice and settled (inner first) under a generated plural policy, optionally after pre-binding the plan's plural id to another braid shell on a copy so that the last fallible step of settlement fails. Oracles: copied prefix equals the parent's entries modulo lane id, child state = parent state replayed at the fork tick, basis pins the parent's recorded commit, heads fresh and disjoint, invalid forks leave `{:#?}` of runtime and provenance identical; isolation: per pass a lane without its own commit keeps length and content, and as a metamorphic relation the run with every strand-directed submission dropped has identical per-tick (state root, commit id, patch digest) chains on every base lane, and the run with base submissions dropped has identical chains on every strand lane; compare/plan leave both renderings identical and plan is deterministic; the basis report's parent-movement class equals the harness's own slot-set computation; a clean suffix on an unmoved or disjointly moved parent is fully imported; nothing imports after the first retained decision; failed settlement (injected) leaves both renderings identical; successful settlement appends exactly one entry per decision, leaves the strand lane untouched, gives the parent the strand's value on every out-slot of every imported patch, leaves the parent root unchanged across conflict/plural entries, changes no slot the parent wrote since the anchor, and the parent replays from U0 to its live state. Non-trivial = parent moved with overlap and the suffix has >=2 entries.",
+        assumptions: &[
+            "retries and restarts are excluded from these scripts (retry picks are by submission index, which differs between the compared runs; a restart drops session-scoped strands)",
+            "slot values are read through public store accessors; port slots are not compared",
+        ],
+        subs: c15::subs,
         max_shards: 16,
     },
     Property {
